@@ -1,4 +1,5 @@
 import QrlewModel.Lemmas.Intervals
+import QrlewModel.Lemmas.IntervalsExact
 /-!
 # C11 — data-type lattice operations soundly over-approximate set operations
 
@@ -84,6 +85,26 @@ theorem interInterval_exact (cap : Nat) (l : Ivs) (lo hi x : Int) (h : Good cap 
   have := interIv_length l lo hi
   rw [interInterval, simplify_eq_of_lt _ _ (by have := h.2; omega)]
   exact mem_interIv l lo hi x m hm
+
+/-- `is_subset_of` never answers yes wrongly — proved here while the crude size bound `|l|·|r| < capacity` rules out any
+collapse to the hull inside `intersection` (beyond that bound the subset test is covered by the `intervals` stream only:
+the full statement is `isSubsetOf cap l r = true → ∀ x, Mem x l → Mem x r` for all `Good` operands). -/
+theorem isSubsetOf_sound_partial (cap : Nat) (hc : 2 ≤ cap) (l r : Ivs) (hl : Good cap l) (hr : Good cap r)
+    (hlen : l.length * r.length < cap) (h : isSubsetOf cap l r = true) (x : Int) (hx : Mem x l) : Mem x r := by
+  unfold isSubsetOf at h
+  have heq : inter cap l r = l := by simpa using h
+  rw [← heq] at hx
+  exact ((inter_exact cap hc l r hl hr hlen x).mp hx).2
+
+/-- … and below that bound it answers yes exactly when the denotations are included and the intersection is written as `l` -/
+theorem inter_exact_below_capacity (cap : Nat) (hc : 2 ≤ cap) (l r : Ivs) (hl : Good cap l) (hr : Good cap r)
+    (hlen : l.length * r.length < cap) (x : Int) : Mem x (inter cap l r) ↔ Mem x l ∧ Mem x r :=
+  inter_exact cap hc l r hl hr hlen x
+
+/-- Non-vacuity of the partial statement, and a yes / no pair. -/
+example : Good 128 [(0, 1), (5, 9)] ∧ Good 128 [(0, 3), (4, 20)] ∧ isSubsetOf 128 [(0, 1), (5, 9)] [(0, 3), (4, 20)] = true ∧
+    isSubsetOf 128 [(0, 3), (4, 20)] [(0, 1), (5, 9)] = false := by
+  refine ⟨⟨⟨by decide, by decide, by decide, trivial⟩, by decide⟩, ⟨⟨by decide, by decide, by decide, trivial⟩, by decide⟩, by decide, by decide⟩
 
 /-- Non-vacuity: a concrete non-trivial state satisfies the hypotheses and crosses a merge. -/
 example : Good 128 [(0, 1), (5, 9)] ∧ OpOk 128 (.unionI 1 5) ∧
